@@ -350,6 +350,13 @@ def _sqlite(tree):
     src = ast.unparse(T.find_def(cls, meth))
     if f"SELECT {col} FROM federated_data WHERE " not in src or 'ORDER BY rowid;' not in src:
       _unsupported(f'SQLiteFederatedData.{meth}: does not select {col} ORDER BY rowid')
+  # every query runs on a FRESH cursor (connection.execute): lazy listings must not share a result set
+  for node in ast.walk(cls):
+    if isinstance(node, ast.Attribute) and node.attr in ('_cursor', 'cursor'):
+      _unsupported('SQLiteFederatedData: a cursor is stored / shared between queries')
+    if isinstance(node, ast.Call) and isinstance(node.func, ast.Attribute) and node.func.attr in ('execute', 'executemany') and \
+        D(node.func.value) != 'self._connection':
+      _unsupported('SQLiteFederatedData: a query is not issued through self._connection.execute')
   cd = ast.unparse(T.find_def(cls, '_client_dataset'))
   if 'self._preprocess_client(client_id, self._parse_examples(data))' not in cd:
     _unsupported('SQLiteFederatedData._client_dataset: examples are not parse_examples(data)')
@@ -359,7 +366,10 @@ def _sqlite(tree):
   return ('(* row = (client_id, zlib(msgpack_serialize(examples)), num_examples(examples)); rows are inserted in\n'
           '   iteration order and read back ORDER BY rowid through msgpack_deserialize(zlib.decompress(.)) *)\n'
           'Definition sqlite_row_is_id_blob_count : bool := true.\n'
-          'Definition sqlite_reads_in_rowid_order : bool := true.')
+          'Definition sqlite_reads_in_rowid_order : bool := true.\n'
+          '(* every query method issues self._connection.execute(...): a fresh cursor per query, so a lazy\n'
+          '   listing is not disturbed by other queries on the same object *)\n'
+          'Definition sqlite_fresh_cursor_per_query : bool := true.')
 
 
 MODULES = {
